@@ -52,7 +52,15 @@ def gen(ctx):
                     enc.append(symgen.enc_line(sym, ver, level, mask, segs))
                     meta.append((sym, ver, level, mask, segs, label))
     ctx.c02 = meta
-    return enc
+    # function-level correspondence (implementation against model only): the data stream (encodeSegments) and the
+    # interleaved codeword sequence (encodeToBits) of the same descriptions
+    F = []
+    for (sym, ver, level, mask, segs, label) in meta[:: (3 if ctx.tier == 'quick' else 1)]:
+        body = symgen.enc_line(sym, ver, level, 0, segs).split(' ', 4 if sym != 'rm' else 3)[-1]
+        F.append('%s.segs %d %d %s' % (sym, ver, level, body))
+        if sym != 'mq':
+            F.append('%s.bits %d %d %s' % (sym, ver, level, body))
+    return enc + F
 
 
 def ref_forms(sym, ver, level, mask, segs):
